@@ -47,8 +47,9 @@ type LockerIn struct {
 	PCTDepth int         `json:"pctDepth,omitempty"`
 	PCTSpan  int         `json:"pctSpan,omitempty"`
 	// FineSites: statement-level scheduling points enabled in this run (fine-grained mode only).
-	FineSites []string `json:"fineSites,omitempty"`
-	FineHeld  bool     `json:"fineHeld,omitempty"` // see Config.FineHeld
+	FineSites    []string `json:"fineSites,omitempty"`
+	FineHeld     bool     `json:"fineHeld,omitempty"`     // see Config.FineHeld
+	ClockCreepNs int64    `json:"clockCreepNs,omitempty"` // see Config.ClockCreepNs
 }
 
 type ClockTick struct {
@@ -181,6 +182,10 @@ func (l *lockerSim) root() {
 	idle := 0
 	for {
 		quiesce()
+		if c := l.in.ClockCreepNs; c > 0 {
+			simSleep(time.Duration(c))
+			quiesce()
+		}
 		l.sched.step++
 		if l.sched.step > l.sched.maxSteps {
 			if len(l.in.FineSites) > 0 {
@@ -653,6 +658,7 @@ func GenLockerIn(t *rapid.T) *LockerIn {
 			in.Choices = append(in.Choices, c)
 		}
 	}
+	in.ClockCreepNs = rapid.SampledFrom([]int64{1, 1, 137, 1000}).Draw(t, "creepNs")
 	if pct(t, 30, "hasTicks") {
 		n := rapid.IntRange(1, 6).Draw(t, "nTicks")
 		for i := 0; i < n; i++ {
